@@ -260,7 +260,9 @@ Fixpoint merge_wf_from (old : list (Z * option (list Z))) (olddocs : list (Z * l
 
 Definition merge_wf (m : merge_ev) (olddocs : list (Z * list doc)) : bool :=
   match merge_wf_from (m_old m) olddocs (m_oldnew m) 0, m_new m with
-  | Some content, Some docs => docs_eqb content docs
+  | Some content, Some docs =>
+      (* document numbers of the merged segment are stored as uint32 in the new deleted bitmap *)
+      docs_eqb content docs && (Z.of_nat (length docs) <=? 4294967296)
   | Some [], None => true
   | _, _ => false
   end.
